@@ -104,3 +104,8 @@ mod state;
 mod storage;
 mod telemetry;
 mod writer;
+
+#[cfg(metrics_verif)]
+#[doc(hidden)]
+#[path = "verif.rs"]
+pub mod __verif;
